@@ -241,8 +241,38 @@ static bool reloadBook(Book& b) {
 }
 
 // ------------------------------------------------------------------------------------------------
+
 static BookSession G;   // elaboration pass
 static BookSession D;   // differential pass
+
+/** Elaboration of `book import`: replicate Book::addToBook's traversal with individual addPosToBook calls on the
+ *  elaboration book, recording the links of each added position.  Positions whose half-move clock has reached 100
+ *  (and everything below them) are not added: Position::bookHash() does not distinguish larger clock values, so such
+ *  positions would alias each other (and close cycles). */
+static std::string elaborateImport(int maxPly, const std::string& tok) {
+    Book& b = *G.book;
+    GameTree gt;
+    if (!buildTree(tok, gt)) return "bad-op";
+    GameNode gn = gt.getRootNode();
+    std::vector<AddSpec> specs;
+    std::function<void(int)> rec = [&](int ply) {
+        if (ply >= maxPly) return;
+        Position base = gn.getPos();
+        for (int i = 0; i < gn.nChildren(); i++) {
+            gn.goForward(i);
+            if (gn.getPos().getHalfMoveClock() < 100) {
+                if (!BookBuildTest::node(b, gn.getPos().bookHash()))
+                    specs.push_back(doAdd(G, base.bookHash(), base, gn.getMove()));
+                rec(ply + 1);
+            }
+            gn.goBack();
+        }
+    };
+    rec(0);
+    std::string r = "book import " + std::to_string(maxPly) + " " + tok;
+    for (auto& s : specs) r += " ; " + specStr(s);
+    return r;
+}
 
 static U64 pickKey(BookSession& S, U64 frac) {   // frac in [0,65536): position in creation order
     size_t n = S.order.size();
@@ -367,26 +397,12 @@ static std::string handleGen(const std::vector<std::string>& a) {
             if (k) tok += '/';
             for (size_t j = 0; j < lines[k].size(); j++) { if (j) tok += ','; tok += TextIO::moveToUCIString(lines[k][j]); }
         }
-        GameTree gt;
-        if (!buildTree(tok, gt)) return "bad-op";
-        // replicate Book::addToBook's traversal with individual addPosToBook calls, recording the links of each
-        GameNode gn = gt.getRootNode();
-        std::vector<AddSpec> specs;
-        std::function<void(int)> rec = [&](int ply) {
-            if (ply >= maxPly) return;
-            Position base = gn.getPos();
-            for (int i = 0; i < gn.nChildren(); i++) {
-                gn.goForward(i);
-                if (!BookBuildTest::node(b, gn.getPos().bookHash()))
-                    specs.push_back(doAdd(G, base.bookHash(), base, gn.getMove()));
-                rec(ply + 1);
-                gn.goBack();
-            }
-        };
-        rec(0);
-        std::string r = "book import " + std::to_string(maxPly) + " " + tok;
-        for (auto& s : specs) r += " ; " + specStr(s);
-        return r;
+        return elaborateImport(maxPly, tok);
+    }
+    if (op == "importline" && n == 3) {   // explicit move lines: a/b/c with comma separated UCI moves
+        long long maxPly = vToInt(a[1]);
+        if (maxPly < 0 || maxPly > 1000) return "bad-op";
+        return elaborateImport((int)maxPly, a[2]);
     }
     return "bad-op";
 }
